@@ -8,6 +8,7 @@ type C14Case struct {
 	OldPlugin bool     `json:"oldPlugin"` // plugin that does not advertise multiplexing (pre-mux)
 	Launch    string   `json:"launch"`    // cmd | runner | reattach
 	Allowed   []string `json:"allowed"`   // nil => default
+	RawLine   string   `json:"rawLine"`   // the "plugin" only prints this handshake line and stays alive (non-Go / old plugins)
 	Conflict  string   `json:"conflict"`  // "" | cmd+reattach | secure+reattach | none-set
 }
 
